@@ -64,7 +64,7 @@ class Truncate(VC):
        without killwords the prefix is s[:length-len(end)] minus its last word."""
     prop = "C23"
     target = "jinja2.filters:do_truncate"
-    timeout_quick = 20000
+    timeout_quick = 60000  # two string VCs per variant need cvc5; generous for a loaded machine (one task per clause)
 
     def __init__(self, leeway_from_policy=False, clauses=None):
         self.policy = leeway_from_policy
